@@ -128,7 +128,7 @@ package tax
 //@     (a.Surcharge == nil ==> b.Surcharge == nil) && (a.Surcharge != nil ==> b.Surcharge != nil && fresh(b.Surcharge) && b.Surcharge.Percent == a.Surcharge.Percent && b.Surcharge.Amount == a.Surcharge.Amount)
 // catCopy: b is an independent copy of category a, row by row
 //@ pred catCopy(a *CategoryTotal, b *CategoryTotal) bool = b.Code == a.Code && b.Retained == a.Retained && b.Amount == a.Amount && b.amount == a.amount && \
-//@     (a.Surcharge == nil ==> b.Surcharge == nil) && (a.Surcharge != nil ==> b.Surcharge != nil && fresh(b.Surcharge) && *b.Surcharge == *a.Surcharge) && \
+//@     (a.Surcharge == nil ==> b.Surcharge == nil) && (a.Surcharge != nil ==> b.Surcharge != nil && fresh(b.Surcharge) && live(b.Surcharge) && *b.Surcharge == *a.Surcharge) && \
 //@     len(b.Rates) == len(a.Rates) && (len(a.Rates) > 0 ==> fresh(b.Rates)) && \
 //@     (forall j int :: 0 <= j && j < len(a.Rates) ==> b.Rates[j] != nil && fresh(b.Rates[j]) && rowCopy(a.Rates[j], b.Rates[j]))
 //
@@ -147,7 +147,7 @@ package tax
 //@   loop 2 invariant forall i int :: 0 <= i && i < idx1 ==> nt.Categories[i] != nil && fresh(nt.Categories[i]) && catCopy(t.Categories[i], nt.Categories[i])
 //@   loop 2 invariant forall i int, k int :: 0 <= i && i < k && k <= idx1 ==> nt.Categories[i] != nt.Categories[k]
 //@   loop 2 invariant nt.Categories[idx1] != nil && fresh(nt.Categories[idx1]) && nt.Categories[idx1].Code == t.Categories[idx1].Code && nt.Categories[idx1].Retained == t.Categories[idx1].Retained && nt.Categories[idx1].Amount == t.Categories[idx1].Amount && nt.Categories[idx1].amount == t.Categories[idx1].amount
-//@   loop 2 invariant (t.Categories[idx1].Surcharge == nil ==> nt.Categories[idx1].Surcharge == nil) && (t.Categories[idx1].Surcharge != nil ==> nt.Categories[idx1].Surcharge != nil && fresh(nt.Categories[idx1].Surcharge) && *nt.Categories[idx1].Surcharge == *t.Categories[idx1].Surcharge)
+//@   loop 2 invariant (t.Categories[idx1].Surcharge == nil ==> nt.Categories[idx1].Surcharge == nil) && (t.Categories[idx1].Surcharge != nil ==> nt.Categories[idx1].Surcharge != nil && fresh(nt.Categories[idx1].Surcharge) && live(nt.Categories[idx1].Surcharge) && *nt.Categories[idx1].Surcharge == *t.Categories[idx1].Surcharge)
 //@   loop 2 invariant len(nt.Categories[idx1].Rates) == len(t.Categories[idx1].Rates) && fresh(nt.Categories[idx1].Rates)
 //@   loop 2 invariant forall j int :: 0 <= j && j < idx ==> nt.Categories[idx1].Rates[j] != nil && fresh(nt.Categories[idx1].Rates[j]) && rowCopy(t.Categories[idx1].Rates[j], nt.Categories[idx1].Rates[j])
 //@   loop 2 invariant forall i int, j int, k int, l int :: 0 <= i && i < idx1 && 0 <= j && j < len(t.Categories[i].Rates) && 0 <= k && k < idx1 && 0 <= l && l < len(t.Categories[k].Rates) && (i != k || j != l) ==> nt.Categories[i].Rates[j] != nt.Categories[k].Rates[l]
@@ -471,8 +471,8 @@ package tax
 // fresh one (nothing is shared with the operand, which is not written), the sums change sign.
 // That the surcharge figures and the rows inside the categories change sign is written in
 // /verif/contracts/wip and does not discharge (cell contents under allocation: undecided).
-//@ pred catHeadNeg(a *CategoryTotal, b *CategoryTotal) bool = b.Code == a.Code && b.Retained == a.Retained && b.Amount == num.neg(a.Amount) && b.amount == num.neg(a.amount) && (a.Surcharge == nil ==> b.Surcharge == nil) && (a.Surcharge != nil ==> b.Surcharge != nil && fresh(b.Surcharge))
-//@ pred catHeadSame(a *CategoryTotal, b *CategoryTotal) bool = b.Code == a.Code && b.Retained == a.Retained && b.Amount == a.Amount && b.amount == a.amount && (a.Surcharge == nil ==> b.Surcharge == nil) && (a.Surcharge != nil ==> b.Surcharge != nil && fresh(b.Surcharge))
+//@ pred catHeadNeg(a *CategoryTotal, b *CategoryTotal) bool = b.Code == a.Code && b.Retained == a.Retained && b.Amount == num.neg(a.Amount) && b.amount == num.neg(a.amount) && (a.Surcharge == nil ==> b.Surcharge == nil) && (a.Surcharge != nil ==> b.Surcharge != nil && fresh(b.Surcharge) && live(b.Surcharge) && *b.Surcharge == num.neg(*a.Surcharge))
+//@ pred catHeadSame(a *CategoryTotal, b *CategoryTotal) bool = b.Code == a.Code && b.Retained == a.Retained && b.Amount == a.Amount && b.amount == a.amount && (a.Surcharge == nil ==> b.Surcharge == nil) && (a.Surcharge != nil ==> b.Surcharge != nil && fresh(b.Surcharge) && live(b.Surcharge) && *b.Surcharge == *a.Surcharge)
 //@ pred rowsFresh(a *CategoryTotal, b *CategoryTotal) bool = len(b.Rates) == len(a.Rates) && (forall j int :: 0 <= j && j < len(a.Rates) ==> b.Rates[j] != nil && fresh(b.Rates[j]))
 //@ func (t *Total) Negate() (nt)
 //@   requires t != nil ==> wfTotal(t)
